@@ -1,5 +1,6 @@
 import LexVerif.Proof.WriteIntApi
 import LexVerif.Proof.WriteIntAlgorithm
+import LexVerif.Proof.WriteIntDecimal128
 /-!
 # C03 — integer→string output is the exact canonical numeral in every radix (property theorems)
 
@@ -139,6 +140,57 @@ theorem writeInt_correct_radix_partial (feats : Features) (t : IntTy) (radix : N
 example : writeInt { powerOfTwo := true, radix := true } ⟨64, true⟩ 36 false true (-9223372036854775808)
     (List.replicate 128 170) =
     .ok ([45, 49, 89, 50, 80, 48, 73, 74, 51, 50, 69, 56, 69, 56] ++ List.replicate 114 170, 14) := by
+  decide +kernel
+
+/-- **C03 for the decimal writers** (`decimal.rs` / `jeaiii.rs`): every non-compact build (default, `format`,
+`power-of-two`, `radix`), radix 10, all 12 integer types, every value, both sign settings: the jeaiii comparison
+trees `from_u8 … from_u128`, every `write_digits!` arm (fixed-point digit extraction with the literal
+multipliers), `@10alex` and `div128_rem_1e10`. -/
+theorem writeInt_correct_decimal (feats : Features) (t : IntTy) (reqSign checkValid : Bool)
+    (v : Int) (buffer : Buf) (hc : feats.compact = false)
+    (hbits : ValidBits t.bits) (hvalid : validRadix feats 10 = true)
+    (hv : t.inRange v) (hbuf : requiredSize feats t 10 reqSign ≤ buffer.length) :
+    writeInt feats t 10 reqSign checkValid v buffer =
+      .ok (expected feats 10 reqSign v ++ buffer.drop (expected feats 10 reqSign v).length,
+           (expected feats 10 reqSign v).length) := by
+  obtain ⟨bits, sg⟩ := t
+  simp only at hbits
+  have hv' := hv
+  simp only [IntTy.inRange, IntTy.minVal, IntTy.maxVal, IntTy.maxMag] at hv'
+  -- magnitude bounds
+  have hmag1 : v.natAbs < 2 ^ bits := by
+    rcases hbits with h | h | h | h | h <;> subst h <;> cases sg <;> simp at hv' <;> omega
+  have hmag2 : sg = true → v.natAbs ≤ 2 ^ (bits - 1) := by
+    intro hsg; subst hsg
+    rcases hbits with h | h | h | h | h <;> subst h <;> simp at hv' <;> omega
+  have hM := decimal_spec bits v.natAbs sg hbits hmag1 hmag2
+  have hMant : MantSpec (writeMantissa feats bits 10 v.natAbs sg) (numeral 10 v.natAbs) (needDec bits sg) := by
+    intro buf hb
+    unfold writeMantissa
+    rw [if_neg (by simp [hc])]
+    by_cases hp : feats.powerOfTwo = true
+    · rw [if_neg (by simp [hp]), if_pos rfl]; exact hM buf hb
+    · rw [if_pos (by simp [hp])]; exact hM buf hb
+  have hroom := dec_room feats ⟨bits, sg⟩ reqSign v hbits hv
+  simp only at hroom
+  apply writeInt_of_mantissa feats ⟨bits, sg⟩ 10 reqSign checkValid v buffer _ hbits hvalid hv hMant (by omega)
+  · -- the numeral fits the slice
+    rcases hbits with h | h | h | h | h <;> subst h <;> cases sg <;> simp at hv' <;>
+      first
+        | exact dec_len_le _ 3 (by omega) (by omega)
+        | exact dec_len_le _ 5 (by omega) (by omega)
+        | exact dec_len_le _ 10 (by omega) (by omega)
+        | exact dec_len_le _ 19 (by omega) (by omega)
+        | exact dec_len_le _ 20 (by omega) (by omega)
+        | exact dec_len_le _ 39 (by omega) (by omega)
+  · rcases hbits with h | h | h | h | h <;> subst h <;> cases sg <;> simp [needDec]
+
+/-- non-vacuity: u64::MAX and i128::MIN on the default build -/
+example : writeInt {} ⟨64, false⟩ 10 false false 18446744073709551615 (List.replicate 20 170) =
+    .ok ([49, 56, 52, 52, 54, 55, 52, 52, 48, 55, 51, 55, 48, 57, 53, 53, 49, 54, 49, 53], 20) := by decide +kernel
+example : writeInt {} ⟨128, true⟩ 10 false false (-170141183460469231731687303715884105728)
+    (List.replicate 40 170) =
+    .ok ([45, 49, 55, 48, 49, 52, 49, 49, 56, 51, 52, 54, 48, 52, 54, 57, 50, 51, 49, 55, 51, 49, 54, 56, 55, 51, 48, 51, 55, 49, 53, 56, 56, 52, 49, 48, 53, 55, 50, 56], 40) := by
   decide +kernel
 
 /-- **Finding (kept out of the theorem by `requiredSize`)**: with the `format` feature and
